@@ -371,11 +371,21 @@ func checkC16(p *Prog, r *Result, tier string) {
 		var evSlice types.Object
 		var scanLoop ast.Stmt
 		RV.inspectBody(func(n ast.Node) bool {
-			fs, ok := n.(*ast.ForStmt)
-			if !ok {
+			var fs ast.Stmt
+			var body *ast.BlockStmt
+			switch l := n.(type) {
+			case *ast.ForStmt:
+				fs, body = l, l.Body
+			case *ast.RangeStmt:
+				// `for entry := range ch` is the same receive loop
+				if _, isChan := RV.typeOf(l.X).Underlying().(*types.Chan); isChan {
+					fs, body = l, l.Body
+				}
+			}
+			if fs == nil {
 				return true
 			}
-			inspectNoLit(fs.Body, func(x ast.Node) bool {
+			inspectNoLit(body, func(x ast.Node) bool {
 				if as, ok := x.(*ast.AssignStmt); ok && len(as.Lhs) == 1 && len(as.Rhs) == 1 {
 					if c, ok := unparen(as.Rhs[0]).(*ast.CallExpr); ok {
 						if id, ok := c.Fun.(*ast.Ident); ok && id.Name == "append" && len(c.Args) == 2 && RV.objOf(c.Args[0]) == RV.objOf(as.Lhs[0]) {
